@@ -148,7 +148,7 @@ func (c *Ctx) scanTypeInv(ti *TypeInv) ([]*Obligation, int) {
 						}
 					}
 				case *ssa.Alloc:
-					if !ti.Stable && namedStructOf(i.Type()) == ti.Type {
+					if !ti.Stable && !ti.WritersOnly && namedStructOf(i.Type()) == ti.Type {
 						if _, isSt := i.Type().(*types.Pointer).Elem().Underlying().(*types.Struct); isSt {
 							bad = append(bad, fmt.Sprintf("%s allocates a %s at %s", name, ti.Type, c.posStr(i.Pos())))
 						}
@@ -166,6 +166,9 @@ func (c *Ctx) scanTypeInv(ti *TypeInv) ([]*Obligation, int) {
 	kind := "typeinv."
 	if ti.Stable {
 		kind = "stable."
+	}
+	if ti.WritersOnly {
+		kind = "writers."
 	}
 	ob := &Obligation{Name: kind + ti.Type + "#frame.write[" + strings.Join(ti.Fields, ",") + "]", Kind: "frame.write", Fn: ti.Type, Backend: "ssa-scan", Status: "ok"}
 	if len(bad) > 0 {
